@@ -7,9 +7,10 @@ Tie: the extracted Ref and Mech (bin/c03_model) and /repo's `main` run the same 
 returns a value) or a failing function, so the transcript is the event order.
 
 Per program:   main == Ref                      -> agrees with the property
-               main != Ref and main == Mech     -> a recorded deviation (known_findings/C03.json), named by the
-                                                   switches that alone change the transcript
-               main != Ref and main != Mech     -> VIOLATION (shrunk, replayable)
+               main != Ref and main == Mech     -> an open recorded deviation (known_findings/C03.json), named by the
+                                                   open switches that alone change the transcript
+               main != Ref and main != Mech     -> VIOLATION (shrunk, replayable); when Mech with a REPAIRED switch on
+                                                   explains it, the message names the commit whose effect is gone
 """
 import collections
 import json
@@ -33,15 +34,17 @@ META = {
             "the state a produced, whatever b is; c ? x : y is c followed by the selected branch alone; binary operators evaluate left, then right, "
             "then apply; a failing operand hides everything to its right; any number of traced call arguments / index expressions are evaluated "
             "exactly once each, left to right (induction on the list); the guards `d != 0 && n / d > 1` and `i < n && a[i] > 0` yield 0 without "
-            "touching the guarded operand. Mech (the implementation's order: both operands of && ||, indices right to left, typed reads evaluating "
-            "the index list twice, a[i] = f() calling f twice, println re-evaluating a failing argument) is proved equal to Ref with all switches "
-            "off, and `_refuted` theorems exhibit the deviations. Ref, Mech and main run the same generated programs: all operators x truth "
-            "combinations x 14 evaluation contexts with tracing / failing operands, random operand trees, and gen_core programs; main must equal "
-            "Ref, or equal Mech on a recorded deviation; anything else is a violation with the program as replay.",
+            "touching the guarded operand. Mech (Ref with five switchable deviations: both operands of && ||, indices right to left, typed reads "
+            "evaluating the index list twice, a[i] = f() calling f twice, println re-evaluating a failing argument) is proved equal to Ref with all "
+            "switches off; for the three deviations repaired in /repo (a51b767, 2967bbb, df79998; off in dev_pinned) the short-circuit, guard and "
+            "store-order laws are proved of Mech itself; `_refuted` theorems exhibit the two open ones. Ref, Mech and main run the same generated "
+            "programs: all operators x truth combinations x 14 evaluation contexts with tracing / failing operands, random operand trees, and "
+            "gen_core programs; main must equal Ref, or equal Mech on an open recorded deviation; anything else (including behaving like the code "
+            "before a repair) is a violation with the program as replay.",
     "note": "Trusted: Coq kernel, no axioms (Print Assumptions closed); extraction (ExtrOcamlBasic, ExtrOcamlString) + OCaml driver; Ref is the "
             "hand-written formal reading of the property shared with C01; Mech is a hand-written model of dispatcher.cpp / binary_unary.cpp / "
             "ternary.cpp / call_impl.cpp argument loop / assignment.cpp extract_array_indices / simple_assignment.cpp / output_manager.cpp print_value, "
-            "validated only by the differential run; no multi-dimensional element inside a ?: branch (C01 finding ternary-multidim-segv); "
+            "validated only by the differential run; "
             "struct, string, pointer, float operands are outside CbCore.",
 }
 
@@ -93,26 +96,39 @@ def subsets_run(sexpr, fuel=4000):
     return res
 
 
+# switches of Mech that describe code repaired in /repo: a transcript that only they explain is a regression
+REPAIRED = {"noshort": "a51b767 (&& || short-circuit)", "rtl": "2967bbb (subscripts left to right)",
+            "elemcall": "df79998 (a[i] = f() evaluates f once)"}
+OPEN = ("twice", "retry")
+
+
 def judge(m, i, sexpr=None):
     """-> (verdict, reason, switches): verdict in ok | skip | known | violation.
-    main == Ref: ok.  main == Mech with every recorded deviation on: known (named by the switches that alone change
-    the transcript).  Otherwise main is compared with Mech under every combination of the switches, so that a
-    repair of SOME recorded deviations is still recognised as `the remaining recorded deviations`; a transcript
-    that no combination explains is a violation."""
+    main == Ref: ok.  main == Mech(dev_pinned) (the two open deviations on): known, named by the open switches that
+    alone change the transcript.  Otherwise main is compared with Mech under every combination of the five switches:
+    a combination of OPEN switches only (one of them repaired, the other not) is still `known`; a combination that
+    needs a REPAIRED switch is a violation diagnosed as `behaves like the code before <commit>`; a transcript that
+    no combination explains is a violation."""
     if m["ref"]["expect"] in ("undef", "nofuel") or m["mech"]["expect"] in ("undef", "nofuel"):
         return "skip", None, ()
     wr = langrun.compare(m["ref"], i)
     if not wr:
-        return "ok", None, tuple(sorted(m["only"]))
+        return "ok", None, tuple(sorted(k for k in m["only"] if k in OPEN))
     wm = langrun.compare(m["mech"], i)
     if not wm:
-        sw = tuple(sorted(m["only"])) or ("interaction",)
+        sw = tuple(sorted(k for k in m["only"] if k in OPEN)) or ("interaction",)
         return "known", wr, sw
+    diag = ""
     if sexpr is not None:
         fits = [names for names, r in subsets_run(sexpr) if names and not langrun.compare(r, i)]
+        good = [f for f in fits if all(x in OPEN for x in f)]
+        if good:
+            return "known", wr, min(good, key=len)
         if fits:
-            return "known", wr, min(fits, key=len)
-    return "violation", "vs reference: %s; vs model of the recorded deviations: %s" % (wr, wm), tuple(sorted(m["only"]))
+            f = min(fits, key=len)
+            diag = "; main behaves like the code before " + ", ".join(REPAIRED[x] for x in f if x in REPAIRED)
+            return "violation", "vs reference: %s%s" % (wr, diag), f
+    return "violation", "vs reference: %s; vs model of the recorded deviations: %s" % (wr, wm), ()
 
 
 def run_all(impl, sexprs, chunk=4000):
@@ -169,11 +185,12 @@ def run(rep):
         add(sx, "tree-reproducer", ft)
     cfeats = collections.Counter()
     for k in range(n_core_main):
-        g = gen_core.Gen(rng_for(seed, "c03-core", k))
+        g = gen_core.Gen(rng_for(seed, "c03-core", k), gen_core.Opts(avoid_short_circuit=False, avoid_elem_rhs=False, avoid_ternary_nonint=True))
         add(g.program(), "core", ("core",))
         cfeats.update(g.feats)
     for k in range(n_core_rep):
-        g = gen_core.Gen(rng_for(seed, "c03-core-rep", k), gen_core.Opts(avoid_short_circuit=False, avoid_multi_index_order=False))
+        g = gen_core.Gen(rng_for(seed, "c03-core-rep", k), gen_core.Opts(avoid_short_circuit=False, avoid_multi_index_order=False, avoid_elem_rhs=False,
+                                                                           avoid_print_retry=False, avoid_ternary_nonint=True))
         add(g.program(), "core-reproducer", ("core",))
 
     ms, irs = run_all(impl, progs)
@@ -204,7 +221,7 @@ def run(rep):
             unrepro[sw] += 1
         elif v == "violation":
             bad.append((k, why))
-        if v != "skip" and origin[k] in ("systematic", "tree", "core") and m["only"]:
+        if v != "skip" and origin[k] in ("systematic", "tree", "core") and any(x in OPEN for x in m["only"]):
             main_dev += 1
         if v != "skip" and progs[k] not in seen:
             seen.add(progs[k])
@@ -283,9 +300,14 @@ def run(rep):
                               "the stored replay of %s fails in a new way (neither the demanded nor the recorded transcript)" % f["id"])
     rep.assumptions += [
         "programs on which Ref or Mech reports Undef / out of fuel are not well-formed and are discarded (counted as skip)",
-        "main streams stay outside the shapes of the recorded deviations (gen_c03 shapes, gen_core.Opts.avoid_*); reproducer streams aim at them; "
-        "every program is judged against Ref first and against Mech (all recorded deviations on) only when it differs from Ref",
-        "no multi-dimensional element inside a branch of ?: (finding C01-ternary-multidim-segv, gen_core.Opts.avoid_ternary_multidim)",
+        "main streams stay outside the shapes of the two open deviations (typed reads with traced subscripts other than one in-range subscript; a failing "
+        "operand inside a println argument); reproducer streams aim at them; every program is judged against Ref first and against Mech "
+        "(dev_pinned: the open deviations on) only when it differs from Ref",
+        "gen_core streams keep ?: branches to int variables / literals (avoid_ternary_nonint): a branch inferred as bool that carries another value "
+        "(`unsigned u = c ? x : ~(5 == v)` stores 1, Ref 0) is a value-conversion matter of C01/C04, not an evaluation-order one; "
+        "gen_c03's own trees use arbitrary branches over long operands",
+        "the shapes of the three repaired deviations (short-circuit a51b767, subscript order 2967bbb, a[i] = f() df79998) are part of the main streams; "
+        "a transcript that only a repaired switch of Mech explains is a violation (regression)",
     ]
 
 
